@@ -201,15 +201,16 @@ theorem beta0_step (fuel : Nat) (env : Env) (b : Expr) (p : Bool) :
     evalWith (applyFn (fuel + 1)) env (.call (.lam [] b) [] p) = evalWith (applyFn fuel) env b := by
   simp [evalWith, evalArgs, applyFn, Val.isCallable]
 
-/-- `(f)` ↦ `f` for a global function `f` that wants arguments: the call makes a partial application
+/-- `(f)` ↦ `f` for a non-variadic global function `f` that wants arguments: the call makes a partial application
 holding no arguments, and applying that is applying `f` -/
-theorem noarg_step (fuel : Nat) (env : Env) (b : Builtin) (p : Bool) (hb : b.arity > 0)
+theorem noarg_step (fuel : Nat) (env : Env) (b : Builtin) (p : Bool) (hv : b.variadic = none) (hb : b.arity > 0)
     (hn : Builtin.ofName b.name = some b) :
     evalWith (applyFn (fuel + 1)) env (.call (.sym b.name) [] p) = .ok (.part (.builtin b) [] []) ∧
     ∀ args, args.length = b.arity →
       applyFn (fuel + 2) (.part (.builtin b) [] []) args = applyFn (fuel + 1) (.builtin b) args := by
   constructor
-  · simp only [evalWith, evalArgs, hn, applyFn, List.length_nil]
+  · have hw : b.want 0 = b.arity := by simp [Builtin.want, Builtin.arity, hv]
+    simp only [evalWith, evalArgs, hn, applyFn, List.length_nil, hw]
     have h1 : ¬ (0 > b.arity) := by omega
     have h2 : (0 == b.arity) = false := by simp; omega
     simp [h1, h2]
@@ -279,7 +280,7 @@ theorem simplify_preserves_lambda_free (e s : Expr) (hl : e.lambdaFree = true) (
       (interp fuel e).map (fun v => (Simplify.canonVal v).obs) := by
   have hsl := B6.Lemmas.EvalGuards.simplify_lambdaFree e s hl hs
   unfold simplify simplifyWith at hs
-  cases h1 : Simplify.simplifyBoth Simplify.tableArgc (e.size + 1) e with
+  cases h1 : Simplify.simplifyBoth Simplify.tableArgcV (e.size + 1) e with
   | none => simp [h1] at hs
   | some r0 =>
     obtain ⟨s', m⟩ := r0
@@ -433,6 +434,7 @@ theorem noarg_rewrite_sound (simp : Expr → Option (Expr × Expr)) (s : String)
       simp only [hc, Bool.and_eq_true, decide_eq_true_eq, Bool.not_eq_true'] at hg
       obtain ⟨hn, hv⟩ := hg
       refine ⟨hv, ?_⟩
+      have hv0 := hv
       simp only [variadicName, Bool.or_eq_false_iff, beq_eq_false_iff_ne, ne_eq] at hv
       have hc' : tableArgc s = some n := by
         simpa [tableCount, hv.1, hv.2] using hc
@@ -445,7 +447,13 @@ theorem noarg_rewrite_sound (simp : Expr → Option (Expr × Expr)) (s : String)
           have := List.find?_some (by simpa [Builtin.ofName] using hb)
           simpa using this
         subst hname
-        refine ⟨b, rfl, by omega, fun fuel env => noarg_step fuel env b p (by omega) hb⟩
+        have hvn : b.variadic = none := by
+          have := B6.Lemmas.SimplifyFO.variadicName_name b
+          rw [hv0] at this
+          cases hvv : b.variadic with
+          | none => rfl
+          | some t => simp [hvv] at this
+        refine ⟨b, rfl, by omega, fun fuel env => noarg_step fuel env b p hvn (by omega) hb⟩
 
 end variadic
 
